@@ -784,3 +784,245 @@ func c19Partition(r *Run, ic *iterCopy) []string {
 	sort.Strings(feats)
 	return []string{"groupBy=" + strings.Join(feats, ",")}
 }
+
+// ---- len ------------------------------------------------------------------------
+
+type lenClass struct {
+	name    string
+	kind    int  // kind of the value itself
+	elem    int  // kind of the pointee when kind is Ptr
+	isNil   bool // nil pointer
+	str     bool // the dynamic type is exactly string
+	wantLen bool // the property defines len as the Go length of the (dereferenced) value
+}
+
+var c19LenClasses = []lenClass{
+	{name: "string", kind: kString, str: true, wantLen: true},
+	{name: "named string type", kind: kString, wantLen: true},
+	{name: "slice", kind: kSlice, wantLen: true},
+	{name: "array", kind: kArray, wantLen: true},
+	{name: "map", kind: kMap, wantLen: true},
+	{name: "pointer to slice", kind: kPtr, elem: kSlice, wantLen: true},
+	{name: "pointer to string", kind: kPtr, elem: kString, wantLen: true},
+	{name: "pointer to array", kind: kPtr, elem: kArray, wantLen: true},
+	{name: "pointer to map", kind: kPtr, elem: kMap, wantLen: true},
+	{name: "nil pointer", kind: kPtr, elem: kSlice, isNil: true},
+	{name: "int", kind: kInt},
+	{name: "struct", kind: kStruct},
+	{name: "pointer to struct", kind: kPtr, elem: kStruct},
+	{name: "nil", kind: kInvalid},
+}
+
+var lengthKinds = map[int]bool{kArray: true, kChan: true, kMap: true, kSlice: true, kString: true}
+
+// lenKindOf: the reflect.Kind of the reflect.Value expression e for a value of class c (-1: unknown/panics).
+func lenKindOf(p *pwPath, e ssa.Value, param ssa.Value, c lenClass) int {
+	e = p.resolve(e)
+	call, ok := e.(*ssa.Call)
+	if !ok {
+		return -1
+	}
+	if args, ok := reflectFunc(call, "ValueOf"); ok && len(args) == 1 {
+		a := p.resolve(args[0])
+		if a == param || p.resolve(stripIface(a)) == param {
+			return c.kind
+		}
+		return -1
+	}
+	deref := func(inner int, strict bool) int {
+		switch {
+		case inner == kPtr && c.isNil:
+			return kInvalid
+		case inner == kPtr:
+			return c.elem
+		case strict:
+			return -1 // Elem on a non-pointer panics
+		}
+		return inner
+	}
+	if args, ok := reflectFunc(call, "Indirect"); ok && len(args) == 1 {
+		in := lenKindOf(p, args[0], param, c)
+		if in < 0 {
+			return -1
+		}
+		return deref(in, false)
+	}
+	if recv, _, ok := reflectValueCall(call, "Elem"); ok {
+		in := lenKindOf(p, recv, param, c)
+		if in < 0 {
+			return -1
+		}
+		return deref(in, true)
+	}
+	return -1
+}
+
+func c19LenSSA(r *Run) {
+	w := r.W
+	var fo *types.Func
+	for g, key := range w.helperRoots() {
+		if key == "len" {
+			fo = g
+		}
+	}
+	f := w.FuncOf(fo)
+	if f == nil {
+		r.Lost("R5", "function registered as len")
+		return
+	}
+	fn := w.SSAFunc(f)
+	if fn == nil || len(fn.Params) != 1 {
+		r.Lost("R5", "SSA form of the len helper")
+		return
+	}
+	param := ssa.Value(fn.Params[0])
+	paths, ok := walkPaths(fn, nil, func(caller, callee *ssa.Function) bool { return callee.Pkg == fn.Pkg })
+	if !ok {
+		r.Lost("R5", "paths of the len helper")
+		return
+	}
+	name := f.Name()
+	for _, c := range c19LenClasses {
+		con := "len of a " + c.name
+		var verdict, why string
+		at := fn.Pos()
+		n := 0
+		for _, p := range paths {
+			evalCond := func(v ssa.Value) (bool, bool) {
+				v = p.resolve(v)
+				switch x := v.(type) {
+				case *ssa.BinOp:
+					if x.Op != token.EQL && x.Op != token.NEQ {
+						return false, false
+					}
+					a, b := p.resolve(x.X), p.resolve(x.Y)
+					if isNilConst(b) && (a == param) {
+						return (c.kind == kInvalid) == (x.Op == token.EQL), true
+					}
+					if isNilConst(a) && (b == param) {
+						return (c.kind == kInvalid) == (x.Op == token.EQL), true
+					}
+					if recv, _, isKind := reflectValueCall(a, "Kind"); isKind {
+						if k, isC := constKind(b); isC {
+							kk := lenKindOf(p, recv, param, c)
+							if kk < 0 {
+								return false, false
+							}
+							return (kk == k) == (x.Op == token.EQL), true
+						}
+					}
+				case *ssa.Extract:
+					if ta, isTA := x.Tuple.(*ssa.TypeAssert); isTA && x.Index == 1 && p.resolve(ta.X) == param {
+						if isBasicKind(ta.AssertedType, types.String) && !isNamed(ta.AssertedType) {
+							return c.str, true
+						}
+						if _, isPtr := ta.AssertedType.(*types.Pointer); isPtr {
+							return false, false
+						}
+						if _, isIface := ta.AssertedType.Underlying().(*types.Interface); isIface {
+							return false, false
+						}
+						return false, true // some other concrete type: none of the classes
+					}
+				case *ssa.Call:
+					if recv, _, isV := reflectValueCall(x, "IsValid"); isV {
+						if kk := lenKindOf(p, recv, param, c); kk >= 0 {
+							return kk != kInvalid, true
+						}
+					}
+					if recv, _, isN := reflectValueCall(x, "IsNil"); isN {
+						if kk := lenKindOf(p, recv, param, c); kk == kPtr {
+							return c.isNil, true
+						}
+					}
+				}
+				return false, false
+			}
+			consistent, known := true, true
+			for _, d := range p.decisions {
+				b, ok := evalCond(d.cond)
+				if !ok {
+					known = false
+					break
+				}
+				if b != d.truth {
+					consistent = false
+					break
+				}
+			}
+			if !consistent {
+				continue
+			}
+			if !known {
+				verdict, why = "bad", "the helper branches on something that is not the kind / nil-ness of its argument: its result for this class cannot be read"
+				break
+			}
+			n++
+			// no Len() on a value without a length on this path
+			for _, ev := range p.events {
+				if call, isCall := ev.(*ssa.Call); isCall {
+					if recv, _, isLen := reflectValueCall(call, "Len"); isLen {
+						if kk := lenKindOf(p, recv, param, c); !lengthKinds[kk] {
+							verdict, why = "bad", "reflect.Value.Len panics for kinds without a length (int, struct, nil pointer, ...); it is reached for this class"
+							at = call.Pos()
+						}
+					}
+				}
+			}
+			if verdict != "" {
+				break
+			}
+			if p.end != "return" || len(p.results) != 1 {
+				verdict, why = "bad", "the helper does not return for this class"
+				break
+			}
+			at = p.ret.Pos()
+			if !c.wantLen {
+				continue
+			}
+			res := p.resolve(p.results[0])
+			seq := c.kind
+			if c.kind == kPtr {
+				seq = c.elem
+			}
+			okRes := false
+			if recv, _, isLen := reflectValueCall(res, "Len"); isLen && lenKindOf(p, recv, param, c) == seq {
+				okRes = true
+			}
+			if call, isCall := res.(*ssa.Call); isCall {
+				if b, isB := call.Call.Value.(*ssa.Builtin); isB && b.Name() == "len" && len(call.Call.Args) == 1 && c.str {
+					a := p.resolve(call.Call.Args[0])
+					if ex, isEx := a.(*ssa.Extract); isEx {
+						if ta, isTA := ex.Tuple.(*ssa.TypeAssert); isTA && p.resolve(ta.X) == param {
+							okRes = true
+						}
+					}
+					if ta, isTA := a.(*ssa.TypeAssert); isTA && p.resolve(ta.X) == param {
+						okRes = true
+					}
+				}
+			}
+			if !okRes {
+				verdict = "bad"
+				if c.kind == kPtr {
+					why = "len of a pointer to a string/slice/array/map must be the length of what it points to"
+				} else {
+					why = "values of this kind (including named types such as template.HTML) must report their Go length"
+				}
+				break
+			}
+		}
+		if verdict == "" && n == 0 {
+			verdict, why = "bad", "no path of the helper is taken by this class"
+		}
+		if verdict == "" {
+			how := "no reflective Len() is reached"
+			if c.wantLen {
+				how = "the Go length of the (dereferenced) value on every path this class takes"
+			}
+			r.Ok("R5", name, con, w.Pos(at), how)
+		} else {
+			r.Bad("R5", name, con, w.Pos(at), why)
+		}
+	}
+}
